@@ -9,6 +9,7 @@ followed by a fresh probe load and by the rest of the history.
 
 from __future__ import annotations
 
+import inspect
 import copy
 import gc
 import logging
@@ -20,7 +21,7 @@ from .. import gen, sandbox
 from ..repo import asm_canon, index_canon
 from ..runner import digest_of
 from ..sched import Baton, PCTChooser, PhaseChooser, RandomWalkChooser, ReplayChooser
-from ..world import TICK_NS, Fault, World, is_mutating_op
+from ..world import fork_call, TICK_NS, Fault, World, is_mutating_op
 
 ID = "C15"
 LEVEL = "fault_enumeration"
@@ -229,11 +230,14 @@ class Exec:
                 # to be computed on the very same path
                 st = os.stat(tmp) if cur is not None else None
                 tmp.write_bytes(self.blobs[v])
-                try:
+                def compute():
                     idx, asm = self.index_mod.index_fasta_file(tmp, self.knobs["idx_buf"])
-                    ref = (index_canon(idx), asm_canon(asm))
-                except Exception:  # noqa: BLE001 - the reference rejects this content
-                    ref = None
+                    return (index_canon(idx), asm_canon(asm))
+
+                # in a forked child: the reference neither sees nor leaves state
+                # (memo tables and the like) in the interpreter the history runs in
+                kind, val = fork_call(compute)
+                ref = val if kind == "ok" else None  # else: the reference rejects this content
                 if cur is not None:
                     tmp.write_bytes(cur)
                     os.utime(tmp, ns=(st.st_mtime_ns, st.st_mtime_ns))
@@ -285,16 +289,17 @@ class Exec:
                     if rel != FA:
                         os.unlink(os.path.join(self.root, rel))
                 self.fa.write_bytes(self.blobs[v])
-                try:
+                def compute():
                     fi = self.index_mod.FastaIndex(self.fa, self.knobs["idx_buf"])
                     fi.run_indexing()
                     fi = None
-                    out = {
+                    return {
                         "fai": (Path(self.root) / FAI).read_bytes(),
                         "agp": (Path(self.root) / AGP).read_bytes(),
                     }
-                except Exception:  # noqa: BLE001
-                    out = None
+
+                kind, val = fork_call(compute)
+                out = val if kind == "ok" else None
                 sandbox.restore(self.root, snap)
             self.refs[key] = out
         return self.refs[key]
@@ -656,17 +661,19 @@ class Exec:
                 root_logger.removeHandler(h)
             nullh = logging.NullHandler()
             root_logger.addHandler(nullh)
-            old_defaults = self.index_mod.FastaIndex.__init__.__defaults__
-            self.index_mod.FastaIndex.__init__.__defaults__ = (self.knobs["idx_buf"],)
+            old_defaults = inspect.unwrap(self.index_mod.FastaIndex.__init__).__defaults__
+            inspect.unwrap(self.index_mod.FastaIndex.__init__).__defaults__ = (self.knobs["idx_buf"],)
             gc_was = gc.isenabled()
             gc.disable()
             try:
+                for v in range(len(self.blobs)):
+                    self.canon_cache(v)  # (forks: done before any simulated process or thread exists)
                 self.do_rewrite(0)
                 self.run_from(0)
             finally:
                 if gc_was:
                     gc.enable()
-                self.index_mod.FastaIndex.__init__.__defaults__ = old_defaults
+                inspect.unwrap(self.index_mod.FastaIndex.__init__).__defaults__ = old_defaults
                 root_logger.removeHandler(nullh)
                 for h in old_handlers:
                     root_logger.addHandler(h)
